@@ -181,3 +181,70 @@ func dependsOn(v, target ssa.Value, depth int) bool {
 	}
 	return false
 }
+
+// argumentRoles: when caller and callee (both in the analysed package) have a
+// string parameter of the same name, the caller passes *its* parameter of that
+// name (or something computed from it) in that position — two adjacent string
+// arguments swapped compile and keep every single-site check happy.
+func argumentRoles(ctx *core.Ctx, r *RT, rule string, names map[string]bool, detail string) {
+	for _, fn := range r.Fns {
+		byName := map[string]*ssa.Parameter{}
+		for _, p := range fn.Params {
+			if b, ok := p.Type().Underlying().(*types.Basic); ok && b.Kind() == types.String && names[p.Name()] {
+				byName[p.Name()] = p
+			}
+		}
+		if len(byName) == 0 {
+			continue
+		}
+		n := 0
+		for _, c := range ssax.Calls(fn) {
+			if c.Static == nil || c.Static.Pkg != r.Pkg || c.Static == fn {
+				continue
+			}
+			for i, cp := range c.Static.Params {
+				mine, ok := byName[cp.Name()]
+				if !ok || i >= len(c.Common.Args) {
+					continue
+				}
+				if b, isB := cp.Type().Underlying().(*types.Basic); !isB || b.Kind() != types.String {
+					continue
+				}
+				n++
+				arg := c.Common.Args[i]
+				ctx.Check(dependsOn(arg, mine, 0), rule, ssax.Name(fn)+sprintf(" › passes its %q on as %s's %q (call #%d)", cp.Name(), ssax.Name(c.Static), cp.Name(), n), r.IPos(c.Instr), "same-named parameter forwarded in place",
+					"the callee's parameter \""+cp.Name()+"\" receives "+arg.Name()+" instead of this function's \""+cp.Name()+"\": "+detail)
+			}
+		}
+	}
+}
+
+// natsReplyBufferLimit: a bounded output buffer whose bytes are published on
+// NATS is bounded by the NATS payload constant.
+func natsReplyBufferLimit(ctx *core.Ctx, r *RT, rule string) {
+	natsMax := constInt(r, "natsMaxMessageSize")
+	n := 0
+	for _, fn := range r.Fns {
+		pub := false
+		for _, c := range ssax.Calls(fn) {
+			if strings.HasPrefix(c.FullName(), "(*github.com/nats-io/nats.go.Conn).Publish") {
+				pub = true
+			}
+		}
+		if !pub {
+			continue
+		}
+		for _, c := range ssax.Calls(fn) {
+			if c.Static == nil || c.Static.Name() != "NewTMemoryOutputBuffer" {
+				continue
+			}
+			n++
+			k, isK := ssax.ConstInt(c.Args()[0])
+			ctx.Check(isK && k == natsMax, rule, ssax.Name(fn)+" › reply buffer limit = natsMaxMessageSize", r.IPos(c.Instr), sprintf("constant %d", natsMax),
+				sprintf("the reply buffer is bounded by %d (constant: %v) but the broker accepts %d bytes: a reply between the two is not turned into RESPONSE_TOO_LARGE, the publish fails and the caller gets no reply at all", k, isK, natsMax))
+		}
+	}
+	if n == 0 {
+		ctx.Unresolved(rule, "NATS server reply buffer", "no bounded output buffer in a function that publishes on NATS")
+	}
+}
